@@ -95,12 +95,32 @@ def run_shard(spec, res):
                     run.step({"op": "add", "s": m, "cons": [al.constraint()]})
                 if rng.random() < 0.4:
                     run.step(H.query_step(al, rng, m, ops=["eval", "max", "min", "satisfiable", "solution"], p_extra=0.2))
+            directed_combine = it % 6 == 5
+            if directed_combine:
+                # independent solvers whose cached models disagree on a variable the receiver does not mention: the
+                # receiver is only about x, two others are about y (y small / y large), every one has solved already
+                run = api.Run(res, uni_vars, cls, PID, mode="exact" if exact else "none", cfg=cfg, keep=keep)
+                x_, y_ = al.v(0), al.v(1 % al.nvars)
+                m_ = (1 << al.w) - 1
+                lo_, hi_ = rng.randrange(1, m_), rng.randrange(1, m_)
+                members = [0]
+                run.step({"op": "add", "s": 0, "cons": [[rng.choice(["ult", "ugt", "ne"]), x_, al.k()]]})
+                for cons_ in ([["ult", y_, ["bvv", min(lo_, hi_) or 1, al.w]]], [["uge", y_, ["bvv", max(lo_, hi_), al.w]]], [["ne", y_, al.k()]])[: rng.choice([2, 3])]:
+                    run.live.append(api.Live(cls(), [], label=f"s{len(run.live)}"))
+                    members.append(len(run.live) - 1)
+                    run.step({"op": "add", "s": members[-1], "cons": cons_})
+                for m in members:
+                    run.step({"op": rng.choice(["eval", "max", "min", "satisfiable"]), "s": m, "e": y_ if m else x_, "n": rng.choice([1, 2]), "signed": False, "extra": []})
+                anc_idx = None
+                res.count("directed_combine_cases")
             if run.failed:
                 continue
             if any(run.live[m].tainted for m in members) or (anc_idx is not None and run.live[anc_idx].tainted):
                 res.count("skipped_add_raised_in_setup")
                 continue
             op = rng.choice(["merge", "merge", "merge_anc", "combine", "combine", "split", "split"])
+            if directed_combine:
+                op = "combine"
             if op == "merge_anc" and anc_idx is None:
                 op = "merge"
             lives = [run.live[m] for m in members]
